@@ -1873,6 +1873,8 @@ Box<ITV>::wrap_assign(const Variables_Set& vars,
       break;
     }
   }
+  // The wrapped intervals may have become empty.
+  reset_empty_up_to_date();
   PPL_ASSERT(x.OK());
 #endif
 }
